@@ -31,6 +31,12 @@ RAGGED = {"individuals": ["location", "parents", "metadata"], "nodes": ["metadat
           "mutations": ["derived_state", "metadata"], "populations": ["metadata"], "provenances": ["timestamp", "record"]}
 
 
+# optional columns of set_columns / append_columns and the value a row gets when the column is left out
+OPTIONAL = {"nodes": {"population": -1, "individual": -1, "metadata": []}, "edges": {"metadata": []}, "migrations": {"metadata": []},
+            "sites": {"metadata": []}, "mutations": {"parent": -1, "time": UNK, "metadata": []},
+            "individuals": {"location": [], "parents": [], "metadata": []}}
+
+
 def to_kwargs(cls, rec):
     kw = {}
     for f, v in rec.items():
@@ -111,6 +117,23 @@ def mkrow(cls, rng, n):
         return dict(timestamp=rs(rng), record=rs(rng))
 
 
+def as_array(vals, dtype, form):
+    """the same values as a contiguous array (forms 0, 1), a strided view of a longer array (2, 3), a column of a 2-D array (4, 5)
+    or a reversed view (6, 7): indexing semantics do not depend on the memory layout of the argument"""
+    a = np.array(vals, dtype=dtype)
+    if form in (2, 3):
+        b = np.zeros(2 * len(a), dtype=dtype)
+        b[::2] = a
+        return b[::2]
+    if form in (4, 5):
+        b = np.zeros((len(a), 3), dtype=dtype)
+        b[:, 1] = a
+        return b[:, 1]
+    if form in (6, 7):
+        return np.array(a[::-1])[::-1]
+    return a
+
+
 def apply_real(cls, t, ev):
     """apply one event to the real table; returns (ok, ret, new_table_handle)"""
     op = ev["op"]
@@ -137,6 +160,9 @@ def apply_real(cls, t, ev):
                 o.add_row(**to_kwargs(cls, r))
             d = o.asdict()
             d.pop("metadata_schema", None)
+            for col in ev.get("omit", []):       # optional columns left out: the library fills in the documented default
+                d.pop(col, None)
+                d.pop(col + "_offset", None)
             getattr(t, op)(**d)
             return 1, [], t
         if op == "setattr":
@@ -165,11 +191,11 @@ def apply_real(cls, t, ev):
         if op == "slice":
             return 1, content(cls, t[ev["a"]:ev["b"]]), t
         if op == "mask":
-            return 1, content(cls, t[np.array(ev["mask"], dtype=bool)]), t
+            return 1, content(cls, t[as_array(ev["mask"], bool, ev.get("form", 0))]), t
         if op == "ids":
-            return 1, content(cls, t[np.array(ev["ids"], dtype=np.int64)]), t
+            return 1, content(cls, t[as_array(ev["ids"], [np.int64, np.int32][ev.get("form", 0) % 2], ev.get("form", 0))]), t
         if op == "keep_rows":
-            m = t.keep_rows(np.array(ev["keep"], dtype=bool))
+            m = t.keep_rows(as_array(ev["keep"], bool, ev.get("form", 0)))
             return 1, [int(x) for x in m], t
         if op == "copy":
             return 1, [], t.copy()
@@ -202,6 +228,10 @@ def random_history(rng, cls, nops):
             ev["n"] = rng.randint(0, n + 1)
         elif op in ("set_columns", "append_columns"):
             ev["rows"] = [mkrow(cls, rng, n) for _ in range(rng.randint(0, 3))]
+            ev["omit"] = [c_ for c_ in OPTIONAL.get(cls, {}) if rng.random() < 0.35]
+            for r in ev["rows"]:
+                for c_ in ev["omit"]:
+                    r[c_] = copy.deepcopy(OPTIONAL[cls][c_])
         elif op == "setattr":
             if not scal:
                 continue
@@ -215,12 +245,15 @@ def random_history(rng, cls, nops):
             ev["a"], ev["b"] = a, rng.randint(a, n)
         elif op == "mask":
             ev["mask"] = [rng.randint(0, 1) for _ in range(n)]
+            ev["form"] = rng.randrange(8)
         elif op == "ids":
             if n == 0:
                 continue
             ev["ids"] = [rng.randrange(-n, n) for _ in range(rng.randint(0, 4))]
+            ev["form"] = rng.randrange(8)
         elif op == "keep_rows":
             ev["keep"] = [1 if rng.random() < 0.65 else 0 for _ in range(n)]
+            ev["form"] = rng.randrange(8)
         ok, ret, t = apply_real(cls, t, ev)
         ev["ok"] = ok
         ev["ret"] = ret
